@@ -292,6 +292,10 @@ theorem from_char (c : Nat) :
     from_ tb .char (.char c) = if h : ValidChar c then .ok ⟨c, h⟩ else .error .conversion := rfl
 theorem from_f64 (b : Nat) :
     from_ tb .f64 (.num b) = if h : b < 18446744073709551616 then .ok ⟨b, h⟩ else .error .conversion := rfl
+theorem from_f32 (b : Nat) :
+    from_ tb .f32 (.num b) =
+      if tb.f32Checked && finite64 b && inf32 (narrow64 b) then .error .conversion
+      else .ok ⟨narrow64 b, Nat.mod_lt _ (by decide)⟩ := rfl
 theorem from_cust (ty : String) (id : Int) :
     from_ tb .cust (.custom ty id) =
       if ty = "rec" then (if h : InRange .i64 id then .ok ⟨id, h⟩ else .error .conversion)
@@ -333,6 +337,18 @@ theorem roundtrip_core (tb : ConvTable) : ∀ (t : Ty), t.noRes = true → t.int
     intro _ _ x _
     refine ⟨_, rfl, ?_⟩
     rw [from_f64, dif_pos x.property]; rfl
+  | f32 =>
+    intro _ _ x ho
+    have ho' : (narrow64 (widen32 x.val) == x.val && !(tb.f32Checked && inf32 x.val)) = true := ho
+    simp only [Bool.and_eq_true, beq_iff_eq, Bool.not_eq_true', Bool.and_eq_false_iff] at ho'
+    refine ⟨.num (widen32 x.val), rfl, ?_⟩
+    rw [from_f32]
+    have hg : (tb.f32Checked && finite64 (widen32 x.val) && inf32 (narrow64 (widen32 x.val))) = false := by
+      rw [ho'.1]
+      rcases ho'.2 with h | h <;> simp [h]
+    rw [hg]
+    simp only [Bool.false_eq_true, if_false]
+    exact congrArg Except.ok (Subtype.ext ho'.1)
   | cust =>
     intro _ _ x _
     refine ⟨_, rfl, ?_⟩
